@@ -199,6 +199,23 @@ class WriterModel(object):
         finally:
             self.stack.pop()
 
+    def call_returning_list(self, name, call, env, lists, guards, sink):
+        """`attrs = self._helper(node)`: a helper that builds an attribute list and returns it"""
+        f = self.methods[name]
+        rets = [n for n in P.walk_no_nested(f) if isinstance(n, ast.Return) and n.value is not None]
+        if len(rets) != 1 or not isinstance(rets[0].value, ast.Name) or self.stack.count(name) >= 1:
+            return None
+        made = [t.id for t, v, st in P.stores_in(f) if isinstance(t, ast.Name) and isinstance(v, ast.List) and t.id == rets[0].value.id]
+        if not made:
+            return None
+        nenv, nlists = self.bind(name, call, env, lists)
+        self.stack.append(name)
+        try:
+            self.block(f.body, nenv, nlists, list(guards), sink, name)
+        finally:
+            self.stack.pop()
+        return nlists.get(rets[0].value.id)
+
     def block(self, stmts, env, lists, guards, sink, method):
         guards = list(guards)
         for st in stmts:
@@ -253,6 +270,12 @@ class WriterModel(object):
                     and val.args[0].id in lists:
                 lists[v] = SymList(lists[val.args[0].id].rows)
                 return
+            if isinstance(val, ast.Call) and (P.call_name(val) or '').startswith('self.') and P.call_name(val)[5:] in self.methods and '.' not in P.call_name(val)[5:]:
+                got = self.call_returning_list(P.call_name(val)[5:], val, env, lists, guards, sink)
+                if got is not None:
+                    lists[v] = got
+                    env.pop(v, None)
+                    return
             self.expr_calls(val, env, lists, guards, sink, method)
             if isinstance(val, ast.IfExp) and self.const_alts(val, env):
                 t = subst(val.test, env)
